@@ -23,6 +23,10 @@ CHECKS = {
   text="Bounded symbolic model checking of scan_orfs on windows of concrete length <= 10 (quick) / 12 (thorough) whose every base is symbolic over {A,C,G,T,N,a,t,g}, both directions, symbolic offset (incl. negative: windows crossing the origin), record length and minimum length, against an independent reference scanner written as formulas over the codon predicates: every reported location is a real ORF and, extracted on its strand in part order, visits exactly the ORF's bases in reading order (for all positions t); every ORF is reported; and of find_intergenic_areas on <= 3 genes (nested/overlapping) with symbolic coordinates, padding and minimum length.",
   note="'At least the minimum length' is read as pinned by the repository's own test (last base - first base >= minimum). find_all_orfs glue (slicing a real Seq) and translation text are outside the claim; record length > window length.",
   ref="3/C15"),
+ "C17": dict(
+  text="Bounded symbolic model checking with SET ITERATION ORDER AS AN EXPLICIT SYMBOLIC INPUT: the `set` used by each stage (and, through one fixed AST rewrite, its set displays / comprehensions) iterates in an order chosen by symbolic variables, so the solver ranges over every order any PYTHONHASHSEED or memory layout could produce, jointly with symbolic hit coordinates / scores (ties included) and gene coordinates. Stages: refine_hmmscan_results (k <= 3 hits), hmmer.remove_overlapping (k <= 3), filter_results + filter_result_multiple (k = 3), find_protoclusters + record numbering + Region.get_unique_protoclusters + CDSResults.to_json (2 rules on 2 genes incl. equal-coordinate opposite-strand genes). Obligation per path: the stage's output under the symbolic order equals its output under plain insertion order.",
+  note="Hash seed and memory layout reach these stages only through set iteration order (dict and list order are deterministic in CPython); whole-pipeline byte identity of files, timestamps and C extensions are outside the claim. Candidate formation's internal sets are varied by C05's renamed products instead. A counterexample is replayed with the model's order on the real stage (ASet), not by searching hash seeds.",
+  ref="3/C17"),
  "C19": dict(
   text="Bounded symbolic model checking of build_area_rows / pack / Row / adjust_cross_origin_area / Area on regions built by the real formation code from <= 2 protoclusters (core inside extent, extent and optionally core spanning the origin) and an optional subregion with symbolic coordinates and record length (linear, circular, origin-spanning and whole-record regions): every protocluster / shown candidate / subregion is drawn once or as two halves with the same group; same-row areas do not overlap; every extent lies in the announced range; a protocluster's core lies inside its extent; and for every genome position x the drawn extent and core, in drawing coordinates (positions after the origin shifted by the record length), are exactly the feature's extent and core.",
   note="Genes (convert_cds_features) need the HTML description builders and are not explored; set iteration order pinned to hash(product); more than 2 protoclusters / 1 subregion outside the claim.",
@@ -65,6 +69,7 @@ CHECKS = {
   ref="3/C08"),
 }
 NOT_APPLICABLE = {
+ "C16": "the sanitisation code is str-method / regex / f-string / set-of-str code: CrossHair 0.0.110 (the only installed engine with symbolic str) finds counterexamples through the real pre_process_sequences within seconds (that is how the fixed collision defect was found, see known_findings.json) but cannot CONFIRM any bound - even one 2-character id through fix_record_name_id alone is 'Not confirmed' after 120 s, and two 3-character ids hit an internal CrossHair error - and the own z3 executor has no string theory behind CPython's C-level str methods; a check that can never return a sound pass is not registered (sx/xhair.py is kept as an unregistered counterexample search)",
  "C18": "parallel_function is a thin wrapper over multiprocessing.Pool.starmap_async and pickle (C code) plus OS scheduling; there is nothing of antiSMASH to execute symbolically, and a stub honouring Pool's documented contract would make the property true by assumption",
 }
 PENDING_REASON = "check not built yet in this revision (solver-based harness planned, see DESIGN.md section 3); not claimed until its check exists"
